@@ -26,6 +26,10 @@ pub struct Knobs {
     pub long_stall_permille: u32,
     #[serde(default)]
     pub long_stall_max_us: u64,
+    /// The client's call deadline in seconds, sent as the standard `grpc-timeout` request header
+    /// with every Pull (0 = no header). Values above the server-side wait limit only.
+    #[serde(default)]
+    pub call_deadline_s: u64,
 }
 
 #[derive(Serialize, Deserialize, Clone, Debug, PartialEq)]
